@@ -1,7 +1,7 @@
 #!/bin/sh
 # runall.sh <quick|thorough>: runs every registered check in turn and prints its summary line.
 cd "$(dirname "$0")/.." || exit 2
-tier="${1:-quick}"
+tier="${1:-quick}"; mkdir -p bin
 for id in $(python3 -c "import json;print(' '.join(c['property_id'] for c in json.load(open('MANIFEST.json'))['checks']))"); do
   start=$(date +%s)
   ./run.sh "$id" "$tier" > "bin/last-$id.log" 2>&1; rc=$?
